@@ -67,26 +67,27 @@ Definition c_busy (c : cpc) : bool := match c with KStart | KRet => false | _ =>
 (* past the first statement of Close() *)
 Definition c_past (c : cpc) : bool := match c with KStart => false | _ => true end.
 Definition gl (f : cpc -> bool) (g : gpc) : bool :=
-  match g with GCbClose c | GClose c => f c | _ => false end.
+  match g with GCbClose c _ | GClose c => f c | _ => false end.
 
 (* owns callbackInProcess: from winning the CAS (or being spawned) to the store of 0 *)
 Definition g_own (g : gpc) : bool :=
-  match g with GMove | GChk | GCb | GCbBody _ _ | GCbClose _ | GCbEnd | GClr => true | _ => false end.
+  match g with GMove | GChk | GCb | GCbBody _ _ | GCbClose _ _ | GCbEnd | GClr => true | _ => false end.
 (* between clearing the flag and the re-check of pending *)
 Definition g_re (g : gpc) : bool := match g with GLdCs | GLen | GCas => true | _ => false end.
 (* owner that will still look at recvBuf *)
 Definition g_act (g : gpc) : bool :=
-  match g with GMove | GChk | GCb | GCbBody _ _ | GCbClose _ | GCbEnd => true | _ => false end.
+  match g with GMove | GChk | GCb | GCbBody _ _ | GCbClose _ _ | GCbEnd => true | _ => false end.
 (* OnData is executing *)
-Definition g_run (g : gpc) : bool := match g with GCbBody _ _ | GCbClose _ | GCbEnd => true | _ => false end.
+Definition g_run (g : gpc) : bool := match g with GCbBody _ _ | GCbClose _ _ | GCbEnd => true | _ => false end.
 (* IsOpen() check passed, OnData not yet begun *)
 Definition g_cb (g : gpc) : bool := match g with GCb => true | _ => false end.
 Definition g_exit (g : gpc) : bool := match g with GExit => true | _ => false end.
 Definition g_all (g : gpc) : bool := true.
+Definition g_atclr (g : gpc) : bool := match g with GClr => true | _ => false end.
 (* will still reach the load of callbackCloseState, or is already on the exit path that runs close() *)
 Definition g_w (g : gpc) : bool :=
-  match g with GMove | GChk | GCb | GCbBody _ _ | GCbClose _ | GCbEnd | GClr | GLdCs | GWgDoneClose | GClose _ => true | _ => false end.
-Definition g_cbpast (g : gpc) : bool := match g with GCbClose c => c_past c | _ => false end.
+  match g with GMove | GChk | GCb | GCbBody _ _ | GCbClose _ _ | GCbEnd | GClr | GLdCs | GWgDoneClose | GClose _ => true | _ => false end.
+Definition g_cbpast (g : gpc) : bool := match g with GCbClose c _ => c_past c | _ => false end.
 (* the exit path of the goroutine (entered only after it has read callbackWaitExit) *)
 Definition g_xc (g : gpc) : bool := match g with GWgDoneClose | GClose _ => true | _ => false end.
 (* close() on the exit path starts at its load of the state: these points do not occur *)
@@ -99,6 +100,7 @@ Definition e_halfn (e : epcT) : Z := match e with EHalfN => 1 | _ => 0 end.
 Definition e_half (e : epcT) : Z := match e with EHalf => 1 | _ => 0 end.
 Definition s_proxy (p : spcT) : Z := match p with SWgAdd | SSpawn => 1 | _ => 0 end.
 Definition s_busy (p : spcT) : Z := match p with SCas | SWgAdd | SSpawn => 1 | _ => 0 end.
+Definition y_busy (p : sypcT) : Z := match p with SyCons _ => 1 | SyIdle => 0 end.
 Definition e_cas (e : epcT) : Z := match e with ECas | EWgAdd | ESpawn => 1 | _ => 0 end.
 
 Fixpoint ncl (l : list ev) : Z := match l with [] => 0 | EClose :: t => 1 + ncl t | _ :: t => ncl t end.
@@ -138,7 +140,7 @@ Qed.
 
 Lemma step_mono s w : mono s (step s w).
 Proof.
-  destruct w as [|i|i| |i]; cbn [step].
+  destruct w as [|i|i| |i|]; cbn [step].
   - unfold estep, mono. destruct (epc s); cbn; try (left; reflexivity).
     + destruct (inbox s) as [|e r]; [left; reflexivity|]. destruct (intable s); [destruct e|]; cbn; left; reflexivity.
     + zeq; cbn; uc; lia.
@@ -146,12 +148,14 @@ Proof.
     + destruct (cbset s) eqn:Ecb; cbn; lia.
     + zeq; cbn; lia.
   - unfold gstep. destruct (nth_error (gors s) i) as [g|]; [|left; reflexivity].
-    destruct g as [| | |k cl|c| | | | | | | |c|]; cbn; try (left; reflexivity);
+    destruct g as [| | |k cl|c more| | | | | | | |c|]; cbn; try (left; reflexivity);
       try apply (cstep_mono s c); zeq; cbn; try destruct (recv s); try destruct (pending s); cbn; left; reflexivity.
   - unfold clstep. destruct (nth_error (clos s) i) as [c|]; [|left; reflexivity]. cbn. apply (cstep_mono s c).
-  - unfold sstep, mono. destruct (spc s); cbn; try destruct (cbset s) eqn:Ecb; zeq; cbn; lia.
+  - unfold sstep, mono. destruct (spc s); cbn; try destruct (sypc s); try destruct (cbset s) eqn:Ecb; zeq; cbn; lia.
   - unfold ustep, mono. destruct (nth_error (users s) i) as [u|]; [|lia].
     destruct (upc u); cbn; [destruct (utodo u); cbn; [lia|zeq; cbn; lia]|lia].
+  - unfold systep, mono. destruct (sypc s); cbn; [|lia]. destruct (cbset s); [lia|]. destruct (spc s); try lia.
+    destruct (sytodo s); cbn; lia.
 Qed.
 
 Lemma run_app a b s : run (a ++ b) s = run b (run a s).
@@ -172,24 +176,26 @@ Qed.
    Case analysis machinery: one goal per (thread, program point, branch); each goal is closed by
    rewriting the thread counts and linear arithmetic over the clauses of the old state.
    ==================================================================================================== *)
-Ltac cb := cbn [step estep gstep clstep sstep ustep cstep setg clear_pending move_pending fst snd
-  st inproc cstate wg cbset intable cnotify pending recv inbox epc gors clos spc users script processed arrived
+Ltac cb := cbn [step estep gstep clstep sstep ustep systep cstep setg clear_pending move_pending fst snd
+  st inproc cstate wg cbset intable cnotify pending recv inbox epc gors clos spc users script sypc sytodo processed arrived
   chunks consumed offers nlocal nremote out khalf lhalf casfail
   set_st set_inproc set_cstate set_wg set_cbset set_intable set_cnotify set_pending set_recv set_inbox set_epc
-  set_gors set_clos set_spc set_users set_script set_processed set_arrived set_chunks set_consumed set_offers
+  set_gors set_clos set_spc set_users set_script set_sypc set_sytodo set_processed set_arrived set_chunks set_consumed set_offers
   set_nlocal set_nremote set_out set_khalf set_lhalf set_casfail
-  b2z nz c_athalf c_needcl c_pendcb c_send c_cleanT c_ret c_busy c_past gl g_own g_re g_act g_run g_cb g_exit g_all g_w g_cbpast g_xc g_badclose
-  e_proxy e_guard e_clr e_halfn e_half e_cas s_proxy s_busy upc utodo ures negb orb andb cz ncl] in *.
+  b2z nz c_athalf c_needcl c_pendcb c_send c_cleanT c_ret c_busy c_past gl g_own g_re g_act g_run g_cb g_exit g_all g_atclr g_w g_cbpast g_xc g_badclose
+  e_proxy e_guard e_clr e_halfn e_half e_cas s_proxy s_busy y_busy upc utodo ures negb orb andb cz ncl] in *.
 
 Ltac cases s w :=
-  destruct w as [|i|i| |i]; cbn [step];
+  destruct w as [|i|i| |i|]; cbn [step];
   [ unfold estep; destruct (epc s) eqn:Ee;
       [ destruct (inbox s) as [|e r] eqn:Ei; [|destruct (intable s) eqn:Et; [destruct e as [m|]|]] | .. ]
   | unfold gstep; destruct (nth_error (gors s) i) as [g|] eqn:Hn;
-      [destruct g as [| | |k cl|c| | | | | | | |c|]; [ | | |destruct cl|destruct c| | | | | | | |destruct c|] |]
+      [destruct g as [| | |k cl|c more| | | | | | | |c|]; [ | | |destruct cl|destruct c| | | | | | | |destruct c|] |]
   | unfold clstep; destruct (nth_error (clos s) i) as [c|] eqn:Hn; [destruct c|]
-  | unfold sstep; destruct (spc s) eqn:Es
-  | unfold ustep; destruct (nth_error (users s) i) as [u|] eqn:Hn; [destruct (upc u); [destruct (utodo u)|]|] ];
+  | unfold sstep; destruct (spc s) eqn:Es; [destruct (sypc s) eqn:Ey|..]
+  | unfold ustep; destruct (nth_error (users s) i) as [u|] eqn:Hn; [destruct (upc u); [destruct (utodo u)|]|]
+  | unfold systep; destruct (sypc s) eqn:Ey;
+      [destruct (cbset s) eqn:Ecb; [|destruct (spc s) eqn:Es; [destruct (sytodo s) eqn:Eyt|..]]|] ];
   cb.
 
 (* split on the branch conditions that occur in the goal *)
@@ -199,6 +205,7 @@ Ltac brk := repeat match goal with
   | |- context [if cbset ?s then _ else _] => destruct (cbset s) eqn:Ecb
   | |- context [match recv ?s with _ => _ end] => destruct (recv s) eqn:Erv
   | |- context [match pending ?s with _ => _ end] => destruct (pending s) eqn:Epd
+  | |- context [match ?m with O => _ | S _ => _ end] => destruct m
   end; cb.
 
 Ltac rw_eqs := repeat match goal with
@@ -208,6 +215,8 @@ Ltac rw_eqs := repeat match goal with
   | E : spc _ = _ |- _ => rewrite E
   | E : recv _ = _ |- _ => rewrite E
   | E : pending _ = _ |- _ => rewrite E
+  | E : sypc _ = _ |- _ => rewrite E
+  | E : sytodo _ = _ |- _ => rewrite E
   end.
 
 Ltac rw_cnt := match goal with
@@ -242,7 +251,7 @@ Ltac czpos s :=
   pose proof (b2z_range (lhalf s)); pose proof (b2z_range (khalf s)); pose proof (b2z_range (casfail s));
   pose proof (b2z_range (intable s)); pose proof (e_range (epc s)); pose proof (s_range (spc s));
   pose proof (b2z_range (cbset s));
-  pose proof (cz_nonneg c_busy (clos s)); pose proof (cz_nonneg c_past (clos s)); pose proof (cz_nonneg g_all (gors s));
+  pose proof (cz_nonneg c_busy (clos s)); pose proof (cz_nonneg c_past (clos s)); pose proof (cz_nonneg g_all (gors s)); pose proof (cz_nonneg g_atclr (gors s));
   pose proof (cz_nonneg g_w (gors s)); pose proof (cz_nonneg g_cbpast (gors s));
   pose proof (cz_nonneg g_xc (gors s)); pose proof (cz_nonneg g_badclose (gors s));
   pose proof (le_athalf_past (clos s)); pose proof (le_athalf_busy (clos s));
@@ -370,19 +379,52 @@ Qed.
    The hand-off of callbackInProcess between the event loop, SetCallbacks and the callback goroutines
    (any callback mode: callbacks installed from the start, later by SetCallbacks, or never)
    ==================================================================================================== *)
+(* (clauses are written as linear inequalities over 0/1-valued indicators rather than as disjunctions: the
+   preservation proofs are then plain linear arithmetic without case explosion) *)
 Record InvC (s : est) : Prop := {
   (* the flag is exactly the number of owners: goroutines between winning it and clearing it, or the event
      loop / SetCallbacks between winning it and the spawn *)
   c_flag : inproc s = cz g_own (gors s) + e_proxy (epc s) + s_proxy (spc s);
-  c_01 : inproc s = 0 \/ inproc s = 1;
-  (* no stranding: once callbacks are installed, unmoved pending data always has a guardian *)
-  c_P : nz (pending s) = 0 \/ cstate s <> 0 \/ e_guard (epc s) = 1 \/ cz g_own (gors s) + cz g_re (gors s) > 0 \/
-        b2z (cbset s) = 0 \/ s_busy (spc s) = 1;
-  (* unread bytes in recvBuf of an open stream always have an owner that will still offer them *)
-  c_Q : st s = c_streamOpened -> nz (recv s) = 0 \/ cz g_act (gors s) > 0 }.
+  c_01 : 0 <= inproc s <= 1;
+  c_cs : 0 <= cstate s <= 1;
+  (* before the callbacks are installed there is no goroutine and nobody holds the flag; the user may read
+     synchronously only then (and SetCallbacks is called by that same user after its read has returned) *)
+  c_nog : b2z (cbset s) = 0 -> cz g_all (gors s) = 0 /\ e_cas (epc s) = 0 /\ s_busy (spc s) = 0 /\ inproc s = 0;
+  c_sy : y_busy (sypc s) + b2z (cbset s) <= 1;
+  (* no stranding: once callbacks are installed (and no Close() was issued), unmoved pending data always has a
+     guardian: the event loop between add and spawn, an owner, a goroutine at its re-check, or SetCallbacks *)
+  c_P : nz (pending s) <= cstate s + e_guard (epc s) + cz g_own (gors s) + cz g_re (gors s) +
+                          (1 - b2z (cbset s)) + s_busy (spc s);
+  (* unread bytes in recvBuf of an open stream (moved there by a goroutine, or by a synchronous read before
+     SetCallbacks) always have an owner that will still offer them *)
+  c_Q : st s = c_streamOpened ->
+        nz (recv s) <= cz g_act (gors s) + e_proxy (epc s) + s_proxy (spc s) + (1 - b2z (cbset s)) + s_busy (spc s);
+  (* a goroutine that has decided to clear the flag saw recvBuf empty (or the stream not open) *)
+  c_clr : st s = c_streamOpened -> cz g_atclr (gors s) + nz (recv s) <= 1 }.
 
+Lemma own_split l : cz g_own l = cz g_act l + cz g_atclr l.
+Proof. induction l as [|g l IH]; cbn [cz]; [lia|]. rewrite IH. destruct g; cbn [g_own g_act g_atclr]; lia. Qed.
+Lemma nz_range {A} (l : list A) : 0 <= nz l <= 1.
+Proof. destruct l; simpl; lia. Qed.
+
+Lemma nz_skipn_le {A} k (l : list A) : nz (skipn k l) <= nz l.
+Proof. destruct l; [destruct k; simpl; lia|]. pose proof (nz_range (skipn k (a :: l))). simpl nz at 2. lia. Qed.
+Ltac nzfacts := repeat match goal with
+  | |- context [nz (skipn ?k ?l)] =>
+      lazymatch goal with H : nz (skipn k l) <= nz l |- _ => fail | _ => pose proof (nz_skipn_le k l) end
+  | |- context [nz ?x] =>
+      lazymatch goal with H : 0 <= nz x <= 1 |- _ => fail | _ => pose proof (nz_range x) end
+  end.
+Ltac finC s := cb; rw_eqs; rw_cnt; cb; try assumption; czin; cb; uc; zeqh; uc; cb; nzfacts; try lia; czpos s; lia.
 Lemma stepC s w : InvC s -> InvC (step s w).
-Proof. intros [H3 H4 H5 H6]. cases s w; brk; constructor; fin s. Qed.
+Proof.
+  intros [H3 H4 H4' H1 H2 H5 H6 H7]. pose proof (own_split (gors s)).
+  pose proof (nz_range (pending s)). pose proof (nz_range (recv s)).
+  cases s w; brk; constructor; finC s.
+Qed.
+
+
+
 
 (* ====================================================================================================
    A Close() always completes (callbacks either installed from the start or never installed during the run):
@@ -440,17 +482,17 @@ Qed.
    ==================================================================================================== *)
 Ltac initc := intros; constructor; cbn; rewrite ?cz_repeat_false by reflexivity; uc; cbn; try lia; auto.
 
-Lemma initP cb0 inb n scr ups : InvP (init cb0 inb n scr ups).
+Lemma initP cb0 inb n scr ups sy : InvP (init_sy cb0 inb n scr ups sy).
 Proof. initc. Qed.
-Lemma initA cb0 inb n scr ups : InvA (init cb0 inb n scr ups).
+Lemma initA cb0 inb n scr ups sy : InvA (init_sy cb0 inb n scr ups sy).
 Proof. initc. Qed.
-Lemma initT cb0 inb n scr ups : InvT (init cb0 inb n scr ups).
+Lemma initT cb0 inb n scr ups sy : InvT (init_sy cb0 inb n scr ups sy).
 Proof. initc. Qed.
-Lemma initL cb0 inb n scr ups : InvL (init cb0 inb n scr ups).
+Lemma initL cb0 inb n scr ups sy : InvL (init_sy cb0 inb n scr ups sy).
 Proof. initc. Qed.
-Lemma initC cb0 inb n scr ups : InvC (init cb0 inb n scr ups).
-Proof. initc. Qed.
-Lemma initK cb0 inb n scr ups : InvK cb0 (init cb0 inb n scr ups).
+Lemma initC cb0 inb n scr ups sy : InvC (init_sy cb0 inb n scr ups sy).
+Proof. destruct cb0; initc; try (intros; repeat split; cbn; rewrite ?cz_repeat_false by reflexivity; lia). Qed.
+Lemma initK cb0 inb n scr ups sy : InvK cb0 (init_sy cb0 inb n scr ups sy).
 Proof.
   constructor; [destruct cb0; initc|constructor; unfold Wg; cbn; rewrite ?cz_repeat_false by reflexivity; uc; lia].
 Qed.
@@ -464,7 +506,7 @@ Proof.
 Qed.
 Lemma runAll sched s : InvAll s -> InvAll (run sched s).
 Proof. revert s; induction sched as [|w l IH]; simpl; intros s H; auto. apply IH, stepAll, H. Qed.
-Lemma initAll cb0 inb n scr ups : InvAll (init cb0 inb n scr ups).
+Lemma initAll cb0 inb n scr ups sy : InvAll (init_sy cb0 inb n scr ups sy).
 Proof. constructor; [apply initP|apply initA|apply initT|apply initL|apply initC]. Qed.
 
 (* callbacks are installed from the start, or SetCallbacks is not called during the run *)
@@ -505,8 +547,8 @@ Qed.
    C20
    ==================================================================================================== *)
 Section C20.
-Variables (cb0 : bool) (inb : list ev) (ncl_ : nat) (scr : list (nat * bool)) (ups : list (list (list Z))).
-Let s0 := init cb0 inb ncl_ scr ups.
+Variables (cb0 : bool) (inb : list ev) (ncl_ : nat) (scr : list (nat * nat)) (ups : list (list (list Z))) (sy : list nat).
+Let s0 := init_sy cb0 inb ncl_ scr ups sy.
 
 (* OnData never overlaps itself: at most one thread owns callbackInProcess, and only owners run OnData *)
 Theorem serial sched :
@@ -515,8 +557,8 @@ Theorem serial sched :
   (forall i j gi gj, nth_error (gors s) i = Some gi -> nth_error (gors s) j = Some gj ->
                      g_own gi = true -> g_own gj = true -> i = j).
 Proof.
-  intros s. pose proof (runAll sched s0 (initAll _ _ _ _ _)) as H. fold s in H.
-  destruct H as [_ _ _ _ [Hf H01 _ _]].
+  intros s. pose proof (runAll sched s0 (initAll _ _ _ _ _ _)) as H. fold s in H.
+  destruct H as [_ _ _ _ [Hf H01 _ _ _ _ _ _]].
   assert (Ho : cz g_own (gors s) + e_proxy (epc s) + s_proxy (spc s) <= 1) by lia.
   pose proof (e_range (epc s)) as He. pose proof (s_range (spc s)) as Hs.
   split; [exact Ho|split].
@@ -535,20 +577,23 @@ Theorem no_strand sched :
   (exists i g, nth_error (gors s) i = Some g /\ g_re g = true).
 Proof.
   intros s Hcb Hp Hst Hcs Hno.
-  pose proof (runAll sched s0 (initAll _ _ _ _ _)) as HA. fold s in HA.
-  destruct HA as [[HE _ _ _ _] _ _ _ [_ _ HP _]].
+  pose proof (runAll sched s0 (initAll _ _ _ _ _ _)) as HA. fold s in HA.
+  destruct HA as [[HE _ _ _ _] _ _ _ [_ _ _ _ _ HP _ _]].
   assert (Ho : cz g_own (gors s) = 0) by (apply cz_all_false; exact Hno).
-  assert (Hnz : nz (pending s) <> 0) by (destruct (pending s); simpl; [congruence|lia]).
-  rewrite Hcb in HP. cbn [b2z] in HP.
-  destruct HP as [HP|[HP|[HP|[HP|[HP|HP]]]]]; try congruence; try lia.
+  assert (Hnz : nz (pending s) = 1) by (destruct (pending s); simpl; [congruence|lia]).
+  rewrite Hcb, Hcs, Ho, Hnz in HP. cbn [b2z] in HP.
+  pose proof (e_range (epc s)) as He. pose proof (s_range (spc s)) as Hs. pose proof (cz_nonneg g_re (gors s)) as Hr.
+  destruct (Z.eq_dec (e_guard (epc s)) 1) as [Hg|Hg].
   - left. assert (Hc : e_clr (epc s) = 0) by (apply HE; uc; lia).
     destruct (epc s); simpl in *; auto; try lia.
-  - right. right. apply cz_exists. lia.
-  - right. left. destruct (spc s); simpl in HP; auto; lia.
+  - destruct (Z.eq_dec (s_busy (spc s)) 1) as [Hb|Hb].
+    + right. left. destruct (spc s); simpl in Hb; auto; lia.
+    + right. right. apply cz_exists. lia.
 Qed.
 
-(* at quiescence with callbacks installed, the stream open and no Close() issued, everything that arrived
-   was consumed by OnData *)
+(* at quiescence with callbacks installed, the stream open and no Close() issued, everything that arrived was
+   consumed — by the synchronous reads that preceded SetCallbacks and then by OnData — and nothing is left in
+   pendingData or recvBuf (in particular what a synchronous Peek/ReadBytes had already moved into recvBuf) *)
 Theorem quiescent sched :
   let s := run sched s0 in
   cbset s = true -> (spc s = SIdle \/ spc s = SDone) ->
@@ -557,15 +602,16 @@ Theorem quiescent sched :
   pending s = [] /\ recv s = [] /\ consumed s = arrived s.
 Proof.
   intros s Hcb Hsp He Hg Hst Hcs.
-  pose proof (runAll sched s0 (initAll _ _ _ _ _)) as HA. fold s in HA.
-  destruct HA as [_ _ _ [LA LB LC] [_ _ HP HQ]].
+  pose proof (runAll sched s0 (initAll _ _ _ _ _ _)) as HA. fold s in HA.
+  destruct HA as [_ _ _ [LA LB LC] [_ _ _ _ _ HP HQ _]].
   assert (Ho : cz g_own (gors s) = 0) by (apply cz_all_false; intros i g Hi; rewrite (Hg i g Hi); reflexivity).
   assert (Hr : cz g_re (gors s) = 0) by (apply cz_all_false; intros i g Hi; rewrite (Hg i g Hi); reflexivity).
   assert (Ha : cz g_act (gors s) = 0) by (apply cz_all_false; intros i g Hi; rewrite (Hg i g Hi); reflexivity).
-  rewrite He, Hcb in HP. cbn [e_guard b2z] in HP.
-  assert (Hsb : s_busy (spc s) = 0) by (destruct Hsp as [-> | ->]; reflexivity).
+  assert (Hsb : s_busy (spc s) = 0 /\ s_proxy (spc s) = 0) by (destruct Hsp as [-> | ->]; split; reflexivity).
+  specialize (HQ Hst). rewrite He, Hcb, Hcs, Ho, Hr in HP. rewrite He, Hcb, Ha in HQ. cbn [e_guard e_proxy b2z] in HP, HQ.
+  pose proof (nz_range (pending s)). pose proof (nz_range (recv s)).
   assert (Hp : pending s = []) by (apply nz_nil; lia).
-  assert (Hrv : recv s = []) by (apply nz_nil; specialize (HQ Hst); lia).
+  assert (Hrv : recv s = []) by (apply nz_nil; lia).
   repeat split; auto.
   assert (Hnc : st s <> c_streamClosed) by (uc; lia).
   specialize (LB Hnc). specialize (LC Hnc).
@@ -577,13 +623,13 @@ End C20.
    out of pending plus what is still pending; what reached recvBuf is the sub-sequence of moved chunks; until
    the stream is closed nothing is dropped and every arrived byte is, once and in order, consumed by OnData,
    readable in recvBuf, or pending *)
-Theorem order_once cb0 inb ncl scr ups sched :
-  let s := run sched (init cb0 inb ncl scr ups) in
+Theorem order_once cb0 inb ncl scr ups sy sched :
+  let s := run sched (init_sy cb0 inb ncl scr ups sy) in
   arrived s = concat (map snd (chunks s)) ++ concat (pending s) /\
   moved s = concat (map snd (filter fst (chunks s))) /\
   (st s <> c_streamClosed -> arrived s = consumed s ++ recv s ++ concat (pending s)).
 Proof.
-  intros s. pose proof (runAll sched _ (initAll cb0 inb ncl scr ups)) as HA. fold s in HA.
+  intros s. pose proof (runAll sched _ (initAll cb0 inb ncl scr ups sy)) as HA. fold s in HA.
   destruct HA as [_ _ _ [LA LB LC]]. repeat split; auto.
   intros Hnc. rewrite LA. rewrite <- (movedof_all _ (LB Hnc)), (LC Hnc), app_assoc. reflexivity.
 Qed.
@@ -597,8 +643,8 @@ Proof.
   intros Hst. unfold olen. cases s w; brk; cb; rw_cnt; rewrite ?app_length, ?Nat2Z.inj_add; cbn [length]; cb;
     try lia; try congruence; uc; zeqh; cb; lia.
 Qed.
-Theorem stop cb0 inb ncl scr ups sched sched' :
-  let s := run sched (init cb0 inb ncl scr ups) in
+Theorem stop cb0 inb ncl scr ups sy sched sched' :
+  let s := run sched (init_sy cb0 inb ncl scr ups sy) in
   st s <> c_streamOpened ->
   let s' := run sched' s in
   st s' <> c_streamOpened /\ olen s' + cz g_cb (gors s') <= olen s + cz g_cb (gors s).
@@ -619,7 +665,7 @@ Record InvR (s : est) : Prop := {
   r_rem : nremote s + e_halfn (epc s) + e_half (epc s) <= ncl (processed s) }.
 Lemma stepR s w : InvR s -> InvR (step s w).
 Proof. intros [H1]. cases s w; brk; constructor; first [solve [fin s] | destruct e; fin s]. Qed.
-Lemma initR cb0 inb n scr ups : InvR (init cb0 inb n scr ups).
+Lemma initR cb0 inb n scr ups sy : InvR (init_sy cb0 inb n scr ups sy).
 Proof. initc. Qed.
 Lemma runR sched s : InvR s -> InvR (run sched s).
 Proof. revert s; induction sched as [|w l IH]; simpl; intros s H; auto. apply IH, stepR, H. Qed.
@@ -672,8 +718,8 @@ Proof.
 Qed.
 
 Section C10.
-Variables (cb0 : bool) (inb : list ev) (ncl_ : nat) (scr : list (nat * bool)) (ups : list (list (list Z))).
-Let s0 := init cb0 inb ncl_ scr ups.
+Variables (cb0 : bool) (inb : list ev) (ncl_ : nat) (scr : list (nat * nat)) (ups : list (list (list Z))) (sy : list nat).
+Let s0 := init_sy cb0 inb ncl_ scr ups sy.
 
 Theorem monotone sched sched' :
   let s := run sched s0 in let s' := run sched' s in
@@ -682,7 +728,7 @@ Theorem monotone sched sched' :
   (st s = c_streamHalfClosed -> st s' = c_streamHalfClosed \/ st s' = c_streamClosed) /\
   (st s = v_streamLocalHalfClosed -> st s' = v_streamLocalHalfClosed \/ st s' = c_streamClosed).
 Proof.
-  intros s s'. pose proof (runAll sched s0 (initAll _ _ _ _ _)) as HA. fold s in HA.
+  intros s s'. pose proof (runAll sched s0 (initAll _ _ _ _ _ _)) as HA. fold s in HA.
   destruct HA as [[_ _ _ Hst _] _ _ _ _].
   pose proof (run_mono sched' s) as Hm. fold s' in Hm. unfold mono in Hm. uc. lia.
 Qed.
@@ -692,7 +738,7 @@ Theorem callbacks_at_most_once sched :
   0 <= nlocal s /\ 0 <= nremote s /\ nlocal s + nremote s <= 1 /\
   (st s = c_streamOpened -> nlocal s + nremote s = 0) /\ ncl (out s) <= nlocal s.
 Proof.
-  intros s. pose proof (runAll sched s0 (initAll _ _ _ _ _)) as HA. fold s in HA.
+  intros s. pose proof (runAll sched s0 (initAll _ _ _ _ _ _)) as HA. fold s in HA.
   destruct HA as [_ [Hacc [Hn1 Hn2] Hwake Hsent] _ _ _]. czpos s.
   destruct (Z.eqb_spec (st s) c_streamOpened); destruct (Z.eqb_spec (st s) v_streamLocalHalfClosed);
     cbn [b2z] in Hacc; uc; repeat split; try lia.
@@ -703,7 +749,7 @@ Theorem final_flush sched i :
   nth_error (clos s) i = Some KRet ->
   st s <> c_streamOpened /\ flush_res s = RErrStreamClosed /\ read_res s <> RBlocked.
 Proof.
-  intros s Hi. pose proof (runAll sched s0 (initAll _ _ _ _ _)) as HA. fold s in HA.
+  intros s Hi. pose proof (runAll sched s0 (initAll _ _ _ _ _ _)) as HA. fold s in HA.
   destruct HA as [_ _ [_ Hret _] _ _].
   assert (Hst : st s <> c_streamOpened).
   { intros E. specialize (Hret E). pose proof (cz_pos_in c_ret (clos s) i KRet Hi eq_refl). lia. }
@@ -718,7 +764,7 @@ Theorem wake sched :
   epc s <> EHalfN -> cz c_pendcb (clos s) = 0 -> cz (gl c_pendcb) (gors s) = 0 ->
   cnotify s = true.
 Proof.
-  intros s Hst He Hc Hg. pose proof (runAll sched s0 (initAll _ _ _ _ _)) as HA. fold s in HA.
+  intros s Hst He Hc Hg. pose proof (runAll sched s0 (initAll _ _ _ _ _ _)) as HA. fold s in HA.
   destruct HA as [_ [_ _ Hwake _] _ _ _].
   assert (Hh : e_halfn (epc s) = 0) by (destruct (epc s); simpl; auto; congruence).
   destruct (cnotify s); auto. cbn [b2z] in Hwake. lia.
@@ -730,7 +776,7 @@ Theorem peer sched :
   st s <> c_streamOpened /\ flush_res s = RErrStreamClosed /\ read_res s <> RBlocked /\
   (recv s ++ concat (pending s) = [] -> read_res s = REndOfStream).
 Proof.
-  intros s Hp He. pose proof (runAll sched s0 (initAll _ _ _ _ _)) as HA. fold s in HA.
+  intros s Hp He. pose proof (runAll sched s0 (initAll _ _ _ _ _ _)) as HA. fold s in HA.
   destruct HA as [_ _ [_ _ Hpeer] _ _].
   assert (Hst : st s <> c_streamOpened).
   { destruct (Hpeer Hp) as [H|H]; auto. destruct (epc s); simpl in H; try lia. congruence. }
@@ -746,7 +792,7 @@ Theorem full sched :
   let s := run sched s0 in quiesc s -> close_returned s -> closed_ok s.
 Proof.
   intros Hs s. apply (full_inv cb0).
-  - apply (runAll sched s0 (initAll _ _ _ _ _)).
+  - apply (runAll sched s0 (initAll _ _ _ _ _ _)).
   - apply runK; [exact Hs|apply initAll|apply initK].
 Qed.
 End C10.
@@ -773,7 +819,7 @@ Proof. intros [H1 H2 H3]. constructor; cb; assumption. Qed.
 Lemma inboxL x s : InvL s -> InvL (set_inbox x s).
 Proof. intros [H1 H2 H3]. constructor; cb; assumption. Qed.
 Lemma inboxC x s : InvC s -> InvC (set_inbox x s).
-Proof. intros [H1 H2 H3 H4]. constructor; cb; assumption. Qed.
+Proof. intros [H1 H2 H3 H4 H5 H6 H7 H8]. constructor; cb; assumption. Qed.
 Lemma inboxR x s : InvR s -> InvR (set_inbox x s).
 Proof. intros [H1]. constructor; cb; assumption. Qed.
 Lemma inboxK cb0 x s : InvK cb0 s -> InvK cb0 (set_inbox x s).
@@ -813,7 +859,7 @@ Proof.
     + cb. rewrite (newout_app _ _ _ Hd), app_assoc, Hba, Hd. reflexivity.
 Qed.
 Lemma winitI cba cbb na nb sa sb ua ub : WInv cba (winit cba cbb na nb sa sb ua ub).
-Proof. constructor; cbn; try apply initAll; try apply initR; try apply initK; reflexivity. Qed.
+Proof. unfold winit, init. constructor; cbn [wa wb]; try apply initAll; try apply initR; try apply initK; reflexivity. Qed.
 Lemma wrunI cba sched w : wcb_stable cba sched -> WInv cba w -> WInv cba (wrun sched w).
 Proof.
   revert w; induction sched as [|x l IH]; simpl; intros w Hs H; auto. apply IH.
@@ -896,16 +942,14 @@ Lemma stepQ s w : InvP s -> InvT s -> InvQ s -> InvQ (step s w).
 Proof.
   intros [_ P2 P3 _ P7] [T1 _ _] [Q1 Q2 Q3 Q4].
   cases s w; brk; constructor; try solve [finq s].
-  - (* GMove: after the clean nothing is pending, so nothing is moved *)
-    cb; cbq; rw_eqs; rw_cnt; cb; cbq; cb.
-    destruct (Z.eq_dec (nz (pending s)) 0) as [Hp|Hp]; [rewrite (nz_app_nil _ _ Hp); czq s; lia|]. czq s; lia.
-  - cb; cbq; rw_eqs; rw_cnt; cb; cbq; cb.
-    destruct (Z.eq_dec (nz (recv s)) 0) as [Hp|Hp]; [rewrite (nz_skipn _ _ Hp); czq s; lia|]. czq s; lia.
-  - cb; cbq; rw_eqs; rw_cnt; cb; cbq; cb.
-    destruct (Z.eq_dec (nz (recv s)) 0) as [Hp|Hp]; [rewrite (nz_skipn _ _ Hp); czq s; lia|]. czq s; lia.
+  (* moveTo (goroutine or synchronous read): after the clean nothing is pending, so nothing is moved;
+     a consume only shrinks recvBuf *)
+  all: cb; cbq; rw_eqs; rw_cnt; cb; cbq; cb;
+    first [ destruct (Z.eq_dec (nz (pending s)) 0) as [Hp|Hp]; [rewrite (nz_app_nil _ _ Hp); czq s; lia|czq s; lia]
+          | destruct (Z.eq_dec (nz (recv s)) 0) as [Hp|Hp]; [rewrite (nz_skipn _ _ Hp); czq s; lia|czq s; lia] ].
 Qed.
 
-Lemma initQ cb0 inb n scr ups : InvQ (init cb0 inb n scr ups).
+Lemma initQ cb0 inb n scr ups sy : InvQ (init_sy cb0 inb n scr ups sy).
 Proof. constructor; cbn; rewrite ?cz_repeat_false by reflexivity; uc; lia. Qed.
 Lemma runQ sched s : InvAll s -> InvQ s -> InvQ (run sched s).
 Proof.
@@ -914,15 +958,15 @@ Proof.
 Qed.
 
 (* at closed quiescence nothing is left in pendingData or recvBuf (so a read returns end-of-stream at once) *)
-Theorem no_residue cb0 inb nc scr ups sched :
-  let s := run sched (init cb0 inb nc scr ups) in
+Theorem no_residue cb0 inb nc scr ups sy sched :
+  let s := run sched (init_sy cb0 inb nc scr ups sy) in
   st s = c_streamClosed ->
   (forall i g, nth_error (gors s) i = Some g -> g = GExit) ->
   (forall i c, nth_error (clos s) i = Some c -> c = KRet \/ c = KStart) ->
   pending s = [] /\ recv s = [] /\ read_res s = REndOfStream.
 Proof.
   intros s Hst Hg Hc.
-  pose proof (runQ sched _ (initAll cb0 inb nc scr ups) (initQ cb0 inb nc scr ups)) as [_ Q2 Q3 _]. fold s in Q2, Q3.
+  pose proof (runQ sched _ (initAll cb0 inb nc scr ups sy) (initQ cb0 inb nc scr ups sy)) as [_ Q2 Q3 _]. fold s in Q2, Q3.
   assert (G0 : forall f, f GExit = false -> cz f (gors s) = 0).
   { intros f Hf. apply cz_all_false. intros j g Hj. rewrite (Hg j g Hj). exact Hf. }
   assert (C0 : forall f, f KRet = false -> f KStart = false -> cz f (clos s) = 0).
@@ -937,15 +981,15 @@ Qed.
 
 (* ---------- recvBuf is recycled under a running OnData: the bytes an invocation was offered do not stay
    readable until it returns ---------- *)
-Definition view_stable_stmt : Prop := forall cb0 inb nc scr ups sched,
-  let s := run sched (init cb0 inb nc scr ups) in
+Definition view_stable_stmt : Prop := forall cb0 inb nc scr ups sy sched,
+  let s := run sched (init_sy cb0 inb nc scr ups sy) in
   cz g_run (gors s) >= 1 -> recv (step s WEv) = recv s.
 (* while the stream is not closed the event loop never touches recvBuf *)
-Theorem view_stable_partial cb0 inb nc scr ups sched :
-  let s := run sched (init cb0 inb nc scr ups) in
+Theorem view_stable_partial cb0 inb nc scr ups sy sched :
+  let s := run sched (init_sy cb0 inb nc scr ups sy) in
   st s <> c_streamClosed -> recv (step s WEv) = recv s.
 Proof.
-  intros s Hst. pose proof (runAll sched _ (initAll cb0 inb nc scr ups)) as [[HE _ _ _ _] _ _ _ _]. fold s in HE.
+  intros s Hst. pose proof (runAll sched _ (initAll cb0 inb nc scr ups sy)) as [[HE _ _ _ _] _ _ _ _]. fold s in HE.
   specialize (HE Hst). cbn [step]. unfold estep. destruct (epc s) eqn:Ee; cbn in HE; try lia.
   all: repeat match goal with
        | |- context [match inbox ?x with _ => _ end] => destruct (inbox x) as [|[m|] r]
